@@ -146,4 +146,50 @@ def rank (D : List Dir) : Event → Nat
 def chainOf (D : List Dir) (ls : List Line) : List Dir :=
   siteMiddleware addsMiddleware (execSeq D [{ keys := ["site"], lines := ls }]) 0 0
 
+/-! ### several loads in one process
+
+`loadServerBlocks` hands the server type's directive list (`ServerType.Directives()`: for the http
+server the package-level slice `directives`, NOT a copy) to `casketfile.Parse`; the parser looks
+every directive line up in it (`validDirective`) and rejects the whole file at the first line whose
+directive is not listed ("Unknown directive '…'"); `executeDirectives` then iterates over the same
+slice.  The list is the state that successive loads (failed starts, reloads, `-validate`) of one
+process share.  Nothing on the load path writes it: a load — accepted or rejected — hands the list
+on unchanged (`loadStep`). -/
+
+inductive LoadResult where
+  /-- the parser's "Unknown directive 'd'" -/
+  | rejected (d : Dir)
+  /-- parsed; the setup calls `executeDirectives` makes -/
+  | loaded (calls : List Call)
+deriving Repr, DecidableEq
+
+/-- the first directive line, in file order, whose directive is not in the list -/
+def firstUnknown (D : List Dir) : List Block → Option Dir
+  | [] => none
+  | b :: bs =>
+    match b.lines.find? (fun l => !D.contains l.dir) with
+    | some l => some l.dir
+    | none => firstUnknown D bs
+
+def loadOnce (D : List Dir) (blocks : List Block) : LoadResult :=
+  match firstUnknown D blocks with
+  | some d => .rejected d
+  | none => .loaded (execSeq D blocks)
+
+/-- one load: its result, and the directive list the NEXT load of the process will see -/
+def loadStep (D : List Dir) (blocks : List Block) : List Dir × LoadResult := (D, loadOnce D blocks)
+
+/-- a history of loads in one process, starting from the list `D` -/
+def runHistory : List Dir → List (List Block) → List Dir × List LoadResult
+  | D, [] => (D, [])
+  | D, b :: rest =>
+    let s := loadStep D b
+    let r := runHistory s.1 rest
+    (r.1, s.2 :: r.2)
+
+/-- the Casketfile of a rejected load of the stream `c09.history`: one site, a `root` line and a
+line of the (misspelt) directive `w` -/
+def typoLoad (w : Dir) : List Block :=
+  [{ keys := ["site"], lines := [{ dir := "root", tokens := ["root", "."] }, { dir := w, tokens := [w, "x"] }] }]
+
 end Casket.Exec
